@@ -28,17 +28,39 @@ def ctxObs (g : Gen) : Json :=
     | .ok v => Json.arr #[Json.str k, ofCVal v]
     | .error e => Json.arr #[Json.str k, Json.str e.name])).toArray
 
+/-- a tag call through `open()/close()/open+contents+close` of a (possibly held) Tag object -/
+def parseHowOp (j : Json) : Except String (Option How) := do
+  if (← sfld j "op") == "tag" then
+    let h ← parseHow j
+    return (if h = How.call then none else some h)
+  else return none
+
 def run (j : Json) : Except String Json := do
   let T := Tables.current
+  let R := RenderCfg.current
   let init ← fld j "init"
-  let ops ← (← afld j "ops").mapM parseOp
+  let opsJ ← afld j "ops"
   match Gen.init T (← cfld init "markup") (← parsePairs parseCVal (← fld init "settings")) with
   | .error e => return obj [("init_err", Json.str e.name), ("steps", Json.arr #[]), ("open", Json.null)]
-  | .ok g =>
-    let (gf, steps) := Flatland.C19.run T RenderCfg.current g ops
-    let stepJson := steps.map (fun (so : StepObs × Gen) =>
-      obj [("err", ofErr so.1.err), ("out", ofOpt ofStr so.1.out), ("ctx", ctxObs so.2)])
-    return obj [("init_err", Json.null), ("init_ctx", ctxObs g), ("steps", Json.arr stepJson.toArray),
-                ("open", ofNat (openBlocks gf))]
+  | .ok g0 =>
+    let mut g := g0
+    let mut steps : Array Json := #[]
+    for oj in opsJ do
+      let op ← parseOp oj
+      match (← parseHowOp oj), op with
+      | some how, .tag name bind kwargs =>
+        let (res, g') := g.renderHow T R.attrChain R.voids R.order how name bind kwargs
+        g := g'
+        match res with
+        | .ok (s, c) =>
+          steps := steps.push (obj [("err", Json.null), ("out", ofStr s), ("contents", ofOpt ofStr c), ("ctx", ctxObs g)])
+        | .error e =>
+          steps := steps.push (obj [("err", Json.str e.name), ("out", Json.null), ("contents", Json.null), ("ctx", ctxObs g)])
+      | _, _ =>
+        let (g', o) := step T R g op
+        g := g'
+        steps := steps.push (obj [("err", ofErr o.err), ("out", ofOpt ofStr o.out), ("contents", Json.null), ("ctx", ctxObs g)])
+    return obj [("init_err", Json.null), ("init_ctx", ctxObs g0), ("steps", Json.arr steps),
+                ("open", ofNat (openBlocks g))]
 
 end Flatland.Run.C19
